@@ -273,7 +273,9 @@ class DelAttrMethod(MethodDescriptor):
             return mutate_attr(
                 obj=self,
                 attr=attr,
-                value=default,
+                value=prepare_attr_value(
+                    attr_spec=attr_spec, instance=self, value=default
+                ),  # as the constructor does
                 inplace=True,
                 force=True,
                 skip_invalidation=skip_invalidation,
